@@ -52,6 +52,7 @@ int  mc_self(void);
 int  mc_mutex_owner(const void *pthread_mutex);              /* -1 free, -2 unknown object, else thread index */
 int  mc_in_call_blocked(void);                               /* number of times the calling thread was descheduled as not-enabled since mc_mark() */
 void mc_mark(void);
+int  mc_long_waits(void);                                    /* condition waits entered / blocked pthread rwlock acquisitions by the calling thread since mc_mark() */
 long mc_barrier_count(void);                                 /* full barriers (seq_cst op/fence, mutex op) executed by the calling thread so far */
 long mc_blocks_outstanding(void);                            /* heap blocks allocated through the wrapped allocator and not yet freed */
 int  mc_block_state(const void *p);                          /* 1 live, 0 freed, -1 not a block start */
